@@ -24,15 +24,17 @@ def _num_default(fn, src, name):
     raise KeyError(name)
 
 
-def _mult_consts(fn, src):
-    """float literals used as a multiplier inside the function (`x * 1.4826`, `x *= 1.4826`)"""
+def _mult_consts(fn, src, ints=False):
+    """float literals used as a multiplier inside the function (`x * 1.4826`, `x *= 1.4826`); with `ints`, integer
+    literals too (`cdf(..) * 2` says the same as `2.0 * cdf(..)`)"""
+    kinds = (float, int) if ints else (float,)
     out = []
     for n in ast.walk(fn):
         if isinstance(n, ast.AugAssign) and isinstance(n.op, ast.Mult) and isinstance(n.value, ast.Constant):
             out.append((n.value.value, seg(src, n.value)))
         if isinstance(n, ast.BinOp) and isinstance(n.op, ast.Mult):
             for side in (n.left, n.right):
-                if isinstance(side, ast.Constant) and isinstance(side.value, float):
+                if isinstance(side, ast.Constant) and isinstance(side.value, kinds) and not isinstance(side.value, bool):
                     out.append((side.value, seg(src, side)))
     return out
 
@@ -97,6 +99,6 @@ def extract(repo, o):
     v, t = _num_default(db, src, "alpha")
     o.flt("BINTEST_ALPHA", v, t, "do_bintest default alpha")
     zp = find_func(tree, "z_prob")
-    ms = _mult_consts(zp, src)
+    ms = _mult_consts(zp, src, ints=True)
     o.defn("ZPROB_TAIL_FACTORS", "List Rat", "[" + ", ".join(f"({int(m[0])} : Rat)" for m in ms) + "]",
            "float multipliers in z_prob (two-sided tail: 2.0 * cdf(-|z|))")
